@@ -80,6 +80,7 @@ def run_scenarios(rep, name, progs, binaries, prop, max_steps=400, trace=True):
         r = dict(model[pid])
         r["prog"] = toks
         runs.append(r)
+    rep.last_runs = runs                  # model results with their programs, for checks that add a layer of their own (e.g. the CLI)
     skipped = [r for r in runs if not r["done"] or r["oom"]]
     rep.coverage["scenario_programs_not_compared_" + name] = len(skipped)
     if len(skipped) > len(runs) // 4:
